@@ -660,6 +660,10 @@ class KlongInterpreter():
 
         ctx = {} if f_args is None else {reserved_fn_symbol_map[p]: self.call(q) for p,q in zip(reserved_fn_args,f_args)}
 
+        # .f is the function being evaluated, including its local declaration,
+        # so that a recursive call through .f gets its own locals again.
+        ctx[reserved_dot_f_symbol] = f
+
         # A local declaration is an array literal in first position of a program
         # (a plain list of expressions). A conditional (KGCond) or an evaluated
         # array constructor is a single expression, never a declaration.
@@ -675,8 +679,6 @@ class KlongInterpreter():
                     if q not in ctx:
                         ctx[q] = q
                 f = f[1:]
-
-        ctx[reserved_dot_f_symbol] = f
 
         self._context.push(ctx)
         try:
